@@ -69,13 +69,24 @@ def run(ctx):
     r = hoist_rowwise(T.to_term(it.call_function(fg, [xp, x, False, None], {}, None)))
     br = bracket_rows(r.args[0]) if fname(r) == "clip" and len(r.args) == 3 else None
     ok = br is not None and r.args[1] == 0 and sp.expand(r.args[2] - (op("len", xp) - 1)) == 0
-    if not ok:
+    row_limits = [r_.args[1:] for r_ in r.args[0].args] if fname(r) == "stack" and r.args and isinstance(r.args[0], sp.Tuple) and all(
+        fname(r_) == "clip" and len(r_.args) == 3 for r_ in r.args[0].args) else None
+    if not ok and row_limits and any(a != 0 or sp.expand(b - (op("len", xp) - 1)) != 0 for a, b in row_limits):
+        ctx.bad("R13.1", "enclosing_points_1d[clip]", "the rows of the index table are limited separately and not all to [0, n-1]",
+                fg.loc(), derived=str(row_limits))
+    elif not ok and br is None and any(fname(n) in ("clip", "minimum", "maximum") for n in sp.preorder_traversal(r)):
+        # some limiting is applied, but not in a shape the rule reads: no verdict
+        ctx.unsure("R13.1", "enclosing_points_1d[clip]", "the index table is limited in a form the rule does not read", fg.loc(),
+                   derived=T.show(r, 300))
+    elif not ok:
         ctx.bad("R13.1", "enclosing_points_1d[clip]", "indices are not clipped to [0, n-1]", fg.loc(), derived=T.show(r, 300))
     else:
         ctx.ok("R13.1", "enclosing_points_1d[clip]", "indices clipped to [0, len(xp) - 1]", fg.loc())
         lo, hi, lv = br
         ss = op("searchsorted", xp, op("item", x, lv) if lv is not None else x, Str("right"))
         okv = sp.expand(lo - (ss - 1)) == 0 and hi == ss
+        if not okv and (fname(hi) in ("item", "tabulate", "store", "stack") or not T.find_ops(hi, "searchsorted")):
+            okv = None      # the rows are not a search result the rule can read: no verdict
         ctx.expect(okv, "R13.1", "enclosing_points_1d[bracket]",
                    "column j holds (i-1, i) with i = searchsorted(xp, x[j], side='right')", fg.loc(), derived=sp.Tuple(lo, hi),
                    required=sp.Tuple(ss - 1, ss))
@@ -84,11 +95,13 @@ def run(ctx):
     rd = hoist_rowwise(T.to_term(itd.call_function(fg, [xp, x, False, None], {}, None)))
     xp0 = op("item", xp, sp.Integer(0))
     brd = bracket_rows(rd.args[0]) if fname(rd) == "clip" and len(rd.args) == 3 else None
-    okd = False
+    okd = None if any(fname(n) in ("clip", "minimum", "maximum") for n in sp.preorder_traversal(rd)) else False
     if brd is not None:
         lo, hi, lvd = brd
         ssd = op("searchsorted", xp0 - xp, op("item", xp0 - x, lvd) if lvd is not None else xp0 - x, Str("right"))
         okd = hi == ssd
+        if not okd and (fname(hi) in ("item", "tabulate", "store", "stack") or not T.find_ops(hi, "searchsorted")):
+            okd = None
     ctx.expect(okd, "R13.1", "enclosing_points_1d[descending grid]",
                "a descending grid is mapped to (xp0 - x, xp0 - xp) before searching", fg.loc(), derived=T.show(rd, 300))
 
@@ -539,6 +552,9 @@ def bracket_rows(t):
                 return r_.args[2]
             return r_
         r0, r1 = t.args[0].args
+        if fname(r0) == "item" and fname(r1) == "item" and r0.args[0] == r1.args[0] and (r0.args[1], r1.args[1]) == (0, 1):
+            # rows 0 and 1 of a two-row table stacked again: the table itself (bracket_rows only accepts two-row tables)
+            return bracket_rows(r0.args[0])
 
         def per_element(r_):
             # a vector filled one target at a time: buf[j] = v(j) for every j
